@@ -19,9 +19,17 @@ def plan_tok(vocab, length, pre, nshards):
             for s, e in split(n, nshards)]
 
 
-def plan(tier, seed, want=("tok", "gen", "uses", "mut", "meta"), scale=1.0,
+def plan_long(tier, seed, k=None):
+    k = k or (8 if tier == "quick" else 16)
+    return [{"w": "long", "part": i, "of": k, "rs": seed * 611953 + 17,
+             "quick": tier == "quick"} for i in range(k)]
+
+
+def plan(tier, seed, want=("tok", "gen", "uses", "mut", "meta", "long"), scale=1.0,
          ncpu=16):
     shards = []
+    if "long" in want:
+        shards += plan_long(tier, seed)
     if "tok" in want:
         if tier == "quick":
             for L in (0, 1, 2):
@@ -132,5 +140,11 @@ def cases(shard):
             yield "meta-base", base, {"toks": toks, "group": i}
             for label, data in gen.meta_rewrites(toks, rng):
                 yield "meta:" + label, data, {"toks": toks, "group": i}
+    elif w == "long":
+        rng = random.Random(shard["rs"])
+        for i, (fam, n, toks, exts) in enumerate(gen.long_cases(rng, shard["quick"])):
+            if i % shard["of"] == shard["part"]:
+                yield "long", gen.join_tokens(toks), {"toks": toks, "exts": exts,
+                                                      "family": fam, "n": n}
     else:
         raise ValueError(w)
